@@ -76,8 +76,14 @@ def run_k2(rep, prop, tier, seed, profile, nhist, nops, fixed=None, extra_histor
             rep.nontrivial((r['seed'],))
         for k, v in r['cfg'].items():
             cfg_hist['%s=%s' % (k, v)] = cfg_hist.get('%s=%s' % (k, v), 0) + 1
-        for p in r['res'].problems:
+        # concrete failing inputs first: a broken guard is only reported without one when the search
+        # (the rest of the history: reads of every key at every snapshot) found none
+        probs = sorted(r['res'].problems, key=lambda p: 0 if p['kind'] in DIRECT[prop] else 1)
+        has_direct = any(p['kind'] in DIRECT[prop] for p in probs)
+        for p in probs:
             kind = p['kind']
+            if has_direct and kind in INDIRECT[prop] and kind not in DIRECT[prop]:
+                continue
             if kind == 'policy-divergence':
                 continue
             direct = kind in DIRECT[prop]
